@@ -17,17 +17,6 @@ if [ -n "${VERIF_REPO:-}" ] && [ "${VERIF_REPO}" != "/repo" ]; then
 fi
 if ! go build $MODFLAG -o "$BIN" ./cmd/vcheck 2>.build/build.$$.log; then
   cat .build/build.$$.log; rm -f .build/build.$$.log
-if [ "$ID" = C09 ]; then
-  # the scheduler binaries are built with the mutex-shim overlay from the same working tree
-  SD=.build/sched.$$
-  trap 'rm -rf "$BIN" "$SD" .build/alt.$$.mod .build/alt.$$.sum' EXIT INT TERM
-  if ! sched/build.sh "$SD" "${VERIF_REPO:-/repo}" > .build/sched.$$.log 2>&1; then
-    cat .build/sched.$$.log; rm -f .build/sched.$$.log
-    echo "HARNESS-ERROR: overlay build of the scheduler failed"; exit 2
-  fi
-  rm -f .build/sched.$$.log
-  export VSCHED_DIR="$PWD/$SD"
-fi
   echo "HARNESS-ERROR: build failed (library does not compile against the checker?)"; exit 2
 fi
 rm -f .build/build.$$.log
